@@ -24,9 +24,22 @@ func main() {
 	loop := flag.Int("loop", 0, "debug: loop bound for -dump")
 	shareddbg := flag.Bool("shared", false, "debug: list writes to shared locations")
 	mapdbg := flag.Bool("maporder", false, "debug: list all range-over-map sites with their class")
+	listfuncs := flag.Bool("listfuncs", false, "debug: print the full names of all module functions (input of an/reffuncs.go)")
 	lintdbg := flag.Bool("lints", false, "debug: run every control-flow lint over every module function")
 	paritydbg := flag.String("parity", "", "debug: sibling-word parity, e.g. header,cookie")
 	flag.Parse()
+	if *listfuncs {
+		abs, _ := filepath.Abs(*repo)
+		ctx, err := an.Load(abs, "dump", "quick")
+		if err != nil {
+			fmt.Fprintln(os.Stderr, err)
+			os.Exit(2)
+		}
+		for _, n := range ctx.AllSSAFuncNames() {
+			fmt.Println(n)
+		}
+		return
+	}
 	if *paritydbg != "" {
 		abs, _ := filepath.Abs(*repo)
 		ctx, err := an.Load(abs, "dump", "quick")
